@@ -102,3 +102,34 @@ Definition chk_tower (c : tower_case) : bool :=
   && forallb (fun bu => opt_eqb Z.eqb (dict_get Nat.eqb (tw_assigned t) (fst bu)) (Some (snd bu))) assigned
   && Nat.eqb (length (tw_names t)) (length names)
   && forallb (fun un => opt_eqb ustr_eqb (dict_get Z.eqb (tw_names t) (fst un)) (Some (snd un))) names.
+
+(* ---- parsers (C18) ---- *)
+From Wh Require Import PyStr Parse.
+Inductive parse_case :=
+| PCPeal (s : ustring) (expected : result Z)
+| PCCall (s : ustring) (expected : result (list (Z * ustring)))
+| PCStartRow (s : ustring) (expected : result nat)
+| PCPlaceNotation (s : ustring) (expected : result (nat * ustring))
+| PCArg (arg url path query : ustring) (expected : result (Z * option ustring * option Z))
+| PCRequestUrl (id : Z) (key : option ustring) (subst : option Z) (url : ustring)
+| PCInt (s : ustring) (expected : option Z)
+| PCClass (c : N) (space numeric : bool) (dec : option Z).
+
+Definition zu_eqb (a b : Z * ustring) : bool := Z.eqb (fst a) (fst b) && ustr_eqb (snd a) (snd b).
+Definition chk_parse (c : parse_case) : bool :=
+  match c with
+  | PCPeal s e => res_eqb Z.eqb (parse_peal_speed s) e
+  | PCCall s e => res_eqb (list_eqb zu_eqb) (parse_call s) e
+  | PCStartRow s e => res_eqb Nat.eqb (parse_start_row s) e
+  | PCPlaceNotation s e =>
+      res_eqb (fun a b => Nat.eqb (fst a) (fst b) && ustr_eqb (snd a) (snd b)) (parse_place_notation s) e
+  | PCArg arg url path query e =>
+      ustr_eqb (normalise_url arg) url &&
+      res_eqb (fun a b => match a, b with
+                          | (i, k, s), (i', k', s') => Z.eqb i i' && opt_eqb ustr_eqb k k' && opt_eqb Z.eqb s s'
+                          end) (parse_arg_from path query) e
+  | PCRequestUrl id key subst url => ustr_eqb (request_url id key subst) url
+  | PCInt s e => opt_eqb Z.eqb (py_int s) e
+  | PCClass ch sp nu de =>
+      Bool.eqb (py_isspace ch) sp && Bool.eqb (py_isnumeric_char ch) nu && opt_eqb Z.eqb (dec_value ch) de
+  end.
